@@ -67,6 +67,7 @@ def validate(E, seed, tier):
 
 
 META = {
+    "glue": ['groupby_lib/groupby/numba.py::_apply_rolling', 'groupby_lib/groupby/numba.py::rolling_diff', 'groupby_lib/groupby/numba.py::rolling_max', 'groupby_lib/groupby/numba.py::rolling_mean', 'groupby_lib/groupby/numba.py::rolling_min', 'groupby_lib/groupby/numba.py::rolling_shift', 'groupby_lib/groupby/numba.py::rolling_sum'],
     "bounds": {"quick": {"N": 4, "G": 2, "W": "1, 2 (all dtypes, with/without mask), 3 (float64, unmasked)", "min_periods": "1..W"},
                "thorough": {"N": "6 (5 for masked min/max/mean; 7 unmasked sum/max/shift)", "G": "2 (3 at N=5)", "W": [1, 2, 3], "min_periods": "1..W"}},
     "enumerated": ["window", "min_periods", "dtype (incl. time units)", "mask present or not"],
